@@ -1,7 +1,7 @@
 """Interception of the harness intrinsics (package verifharness/vf)."""
 import z3
 
-from .engine import (Closure, PathEnd, Unsupported, b_and, b_not, b_term, bv, fp_term, is_sym, simp_bool,
+from .engine import (RANGES, Closure, PathEnd, Unsupported, b_and, b_not, b_term, bv, fp_term, is_sym, simp_bool,
                      F32, F64, SliceV, Ptr)
 
 P = 'verifharness/vf.'
@@ -42,6 +42,16 @@ def i_intrange(eng, st, fr, fn, args, ins):
     name, lo, hi = args
     tid = fn['results'][0]
     v = new_symbol(eng, st, name, tid)
+    if not is_sym(lo) and not is_sym(hi) and z3.is_bv(v):
+        if lo > hi:
+            raise PathEnd('assume-false')
+        RANGES[v.get_id()] = (lo, hi)
+        eng.keep.append(v)
+        # a fresh symbol: the range is satisfiable whenever pc is, no query needed
+        st.pc.append(z3.And(v >= bv(lo, 64), v <= bv(hi, 64)))
+        st.model = None
+        _ret(st, ins, v)
+        return
     c = z3.And(v >= bv(lo, 64), v <= bv(hi, 64))
     assume(eng, st, c)
     _ret(st, ins, v)
@@ -51,9 +61,32 @@ def assume(eng, st, c):
     c = simp_bool(c)
     if c is True:
         return
-    if c is False or not eng.feasible(st, c):
+    if c is False:
         raise PathEnd('assume-false')
+    if eng.model_says(st, c) is not True:
+        ok, m = eng.feasible_m(st, c)
+        if not ok:
+            raise PathEnd('assume-false')
+        st.model = m
     st.pc.append(c)
+
+
+def i_pick(eng, st, fr, fn, args, ins):
+    """vf.Pick(name, lo, hi): case split over lo..hi without solver calls (fresh symbol, so every value is feasible)"""
+    name, lo, hi = args
+    if is_sym(lo) or is_sym(hi):
+        raise Unsupported('vf.Pick with symbolic bounds')
+    if lo > hi:
+        raise PathEnd('assume-false')
+    tid = fn['results'][0]
+    conts = []
+    for c in range(lo, hi + 1):
+        s = st if c == hi else st.clone()
+        s.nondet.append((name, tid, c))
+        s.frames[-1].regs[ins['reg']] = c
+        s.trace.append('%s=%d' % (name, c))
+        conts.append(s)
+    eng.fork_from(st, conts)
 
 
 def i_assume(eng, st, fr, fn, args, ins):
@@ -189,6 +222,7 @@ def i_param(eng, st, fr, fn, args, ins):
 
 TABLE = {
     P + 'Param': i_param,
+    P + 'Pick': i_pick,
     P + 'Any': i_any,
     P + 'IntRange': i_intrange,
     P + 'Assume': i_assume,
